@@ -77,6 +77,14 @@ func main() {
 			if len(c.Routes) == 0 {
 				continue
 			}
+			// a quarter of the probes also in a wire form with percent-escapes (routed on URL.RawPath)
+			for _, q := range c.Reqs {
+				if r.IntN(4) == 0 {
+					if t, ok := route.Escaped(r, q); ok {
+						c.Reqs = append(c.Reqs, t)
+					}
+				}
+			}
 			if r.IntN(4) == 0 {
 				c.Split = r.IntN(len(c.Routes) + 1)
 			} else {
